@@ -29,7 +29,7 @@ import logging
 logger = logging.getLogger(__name__)
 
 from spyne import MethodContext, BODY_STYLE_BARE, ComplexModelBase, \
-    BODY_STYLE_EMPTY, Ignored
+    BODY_STYLE_EMPTY, Ignored, Fault
 
 from spyne.client import Factory
 from spyne.const.ansi_color import LIGHT_RED
@@ -124,7 +124,15 @@ class _FunctionCall(object):
         # context gets closed also when the error is raised to them.
         p_ctx = initial_ctx
         try:
-            contexts = self.app.in_protocol.generate_method_contexts(initial_ctx)
+            try:
+                contexts = self.app.in_protocol.generate_method_contexts(
+                                                                    initial_ctx)
+            except Fault as e:
+                # same as ServerBase.generate_contexts() for the other transports
+                initial_ctx.in_error = e
+                initial_ctx.out_error = e
+                initial_ctx.fire_event('method_exception_object')
+                raise
 
             retval = None
             logger.warning("%s start request %s" % (_big_header, _big_footer))
